@@ -6,12 +6,12 @@ func (cw *CodeWriter) AddMapping(pos token.Position) {
 	if cw.Mapper == nil {
 		return
 	}
-	cw.Mapper.AddMapping(pos.Line, pos.Column)
+	cw.pendingMapping = &pendingMapping{line: pos.Line, column: pos.Column}
 }
 
 func (cw *CodeWriter) AddNamedMapping(sourceLine, sourceColumn int, name string) {
 	if cw.Mapper == nil {
 		return
 	}
-	cw.Mapper.AddNamedMapping(sourceLine, sourceColumn, name)
+	cw.pendingMapping = &pendingMapping{line: sourceLine, column: sourceColumn, name: name, named: true}
 }
